@@ -2,8 +2,10 @@
 EXTENDS SelfUpdate, Json
 CONSTANTS MaxReleases, Export
 
-\* version codes: V(major, minor, patch) orders like semantic versions as long as every part is below 100
-V(ma, mi, pa) == ma * 10000 + mi * 100 + pa
+\* version codes: V(major, minor, patch) orders like semantic versions as long as every part is below 100;
+\* VPre is the pre-release x.y.z-rc.1 of that version: above every lower release, below x.y.z itself
+V(ma, mi, pa)    == (ma * 10000 + mi * 100 + pa) * 10 + 9
+VPre(ma, mi, pa) == (ma * 10000 + mi * 100 + pa) * 10 + 1
 Pool == {
   Rel(V(2,0,0), FALSE, FALSE, "good", "match"),
   Rel(V(2,0,0), FALSE, FALSE, "good", "mismatch"),
@@ -32,7 +34,8 @@ Pool == {
 \* catalogues: sequences without two releases of the same version
 MCCatalogues == { <<>> } \cup { <<a>> : a \in Pool }
                 \cup (IF MaxReleases >= 2 THEN { <<p[1], p[2]>> : p \in { q \in Pool \X Pool : q[1].ver # q[2].ver } } ELSE {})
-MCRunnings == {V(1,0,0), V(2,0,12), 0}
+\* the running executable: releases, a pre-release build that is newer than most releases, a development build
+MCRunnings == {V(1,0,0), V(2,0,12), VPre(2,1,0), 0}
 MCCmds     == {"self-update", "version"}
 MCFaults   == {"none", "list-500", "list-reset", "list-badjson", "asset-500", "asset-reset", "asset-truncate", "sums-500"}
 
